@@ -70,7 +70,10 @@ def run(res, prop, cases, levels, regs, fuse, backend, max_report=4):
 def find_failing_input(hv, driver, c, backend, level, tries=24):
     """run the program on its own input and on fresh inputs and compare with the canonical run"""
     rng = C.Rng(hash(c.src) & 0xffffffff)
-    envs = [c.env] + [P.env_text(gen.random_input(rng.fork())) for _ in range(tries)]
+    # the program's own input, every combination of {0, 1, 2, 255} on the first three bytes (conditions that
+    # are zero on one path and not on another), and random inputs
+    small = [bytes([a, b, d]) + bytes([3, 0, 7]) for a in (0, 1, 2, 255) for b in (0, 1, 2, 255) for d in (0, 1, 2, 255)]
+    envs = [c.env] + [P.env_text(x) for x in small] + [P.env_text(gen.random_input(rng.fork())) for _ in range(tries)]
     cs = [P.Case(c.src, c.w, e, "tv-search") for e in envs]
     canon = C.run_lines(driver, ["bf|%d|%d|%s|%s" % (x.w, P.FUEL, P.hexs(x.src), x.env) for x in cs])
     got = C.run_lines(hv, P.run_backend_lines(cs, backend, level))
